@@ -43,8 +43,8 @@ type propInfo struct {
 }
 
 var props = map[string]propInfo{
-	"C01": {Engine: "stream", Level: "exploration", Rule: "cases are (source, delivery plan, terminal event, corruption) tuples drawn from the tape, plus every truncation offset of the corpus sources in the exhaustive sub-space; a case is non-trivial when the plan is not 'single chunk, clean EOF, no corruption'; distinct = distinct (source id, plan class, corruption class, parse outcome class per entry point)"},
-	"C19": {Engine: "stream", Level: "exploration", Rule: "cases are (statements parsed from a generated or corpus source, delivery plan, fault) tuples drawn from the tape, plus every cut offset of corpus encodings ≤ 2 KiB in the exhaustive sub-space; non-trivial when delivery is not 'all at once, clean EOF' or a fault is injected; distinct = distinct (node-kind set, chunk-plan class, fault class, outcome class)"},
+	"C01": {Engine: "stream", Overlay: true, Level: "exploration", Rule: "cases are (source, delivery plan, terminal event, corruption) tuples drawn from the tape, plus every truncation offset of the corpus sources in the exhaustive sub-space; a case is non-trivial when the plan is not 'single chunk, clean EOF, no corruption'; distinct = distinct (source id, plan class, corruption class, parse outcome class per entry point)"},
+	"C19": {Engine: "stream", Overlay: true, Level: "exploration", Rule: "cases are (statements parsed from a generated or corpus source, delivery plan, fault) tuples drawn from the tape, plus every cut offset of corpus encodings ≤ 2 KiB in the exhaustive sub-space; non-trivial when delivery is not 'all at once, clean EOF' or a fault is injected; distinct = distinct (node-kind set, chunk-plan class, fault class, outcome class)"},
 	"C06": {Engine: "world", Overlay: true, Level: "exploration", Rule: "cases are (lifecycle action assignment, request history, clock advances, origin behaviours) drawn from the tape, plus the enumerated product of unconditional actions; non-trivial when at least one subroutine takes a non-default action or the history has ≥ 2 requests; distinct = distinct (model path signature per request, clock class, origin outcome class)"},
 	"C08": {Engine: "world", Overlay: true, Level: "exploration", Rule: "cases are (program family, request history, origin fault plan, clock advances, include graph) drawn from the tape; non-trivial when at least one fault fired, a boundary operand was used, or a guard (restart/depth/include budget) was reached; distinct = distinct (workload class, fault kinds fired, terminal classification)"},
 	"C11": {Engine: "lintsim", Overlay: true, Level: "exploration", Rule: "cases are (program, include graph, module-store faults, R map-iteration orders, declaration permutation) drawn from the tape; non-trivial when some iterated map has ≥ 2 entries or the program has an include edge; distinct = distinct (program hash, order class)"},
